@@ -2,7 +2,7 @@
    no proper prefix of a completely consumed encoding parses. *)
 From Model Require Import Bytes Prim Tables Cert KAC Mapping Sig LS RI.
 From Gen Require Import Validators.
-From Proofs Require Import BytesLemmas PrimProofs Frame LeafProofs KacRT OffProofs MapRT UptoRT AppendAll Retail LSStrip GuardTie.
+From Proofs Require Import BytesLemmas PrimProofs Frame LeafProofs KacRT OffProofs MapRT UptoRT AppendAll Retail LSStrip GuardTie LSPrefix.
 Open Scope Z_scope.
 
 (* general: prefix-freeness is a consequence of append-invariance, for every parser *)
@@ -158,6 +158,12 @@ Print Assumptions C03_replace_tail_router_info.
 Theorem C03_lease_set_reads_only_its_serialisation : forall d l, wf d -> read_lease_set d = Ok l ->
   exists b r, lease_set_bytes l = Ok b /\ b ++ r = d /\ read_lease_set b = Ok l.
 Proof. exact read_lease_set_strip. Qed.
+(* ... and although it reports no remainder, it accepts no proper prefix of an input it consumes
+   completely (an input that is exactly the accepted value's serialisation) *)
+Theorem C03_lease_set_prefix_free : forall w l, wf w -> read_lease_set w = Ok l -> lease_set_bytes l = Ok w ->
+  forall k, (k < length w)%nat -> forall l', read_lease_set (firstn k w) <> Ok l'.
+Proof. exact read_lease_set_prefix_free. Qed.
+Print Assumptions C03_lease_set_prefix_free.
 (* the destination in front of a LeaseSet: whatever follows it can be replaced *)
 Theorem C03_replace_tail_destination_from_leaseset : forall d dest rem t', wf d -> wf t' ->
   read_destination_from_leaseset d = Ok (dest, rem) ->
